@@ -91,6 +91,7 @@ class Client:
         )
         self.__error_expr = re.compile(rb'"((?:[^"\\]|\\.)*)"')
         self.__size_expr = re.compile(rb"\{(\d+)\+?\}")
+        self.__trailing_size_expr = re.compile(rb"\{(\d+)\+?\}$")
         self.__active_expr = re.compile(rb"ACTIVE", re.IGNORECASE)
 
     def __del__(self):
@@ -180,6 +181,11 @@ class Client:
                     raise Error("Connection closed by server")
                 if m.group(1) == b"NO":
                     self.__parse_error(m.group(2))
+                elif m.group(2) is not None:
+                    # OK followed by a literal text: consume it
+                    mlit = self.__trailing_size_expr.search(m.group(2))
+                    if mlit is not None:
+                        self.__read_block(int(mlit.group(1)) + 2)
                 raise Response(m.group(1), m.group(2))
         return ret
 
